@@ -41,4 +41,24 @@ PROPS = {
              "mid-delimiter / before any byte; watchdog + thread CPU time distinguish blocked from spinning",
         trusted=["a 0-byte read_buf means EOF and EOF is sticky", "wall-clock bound observed by watchdog only"],
     ),
+    "C08": dict(
+        thm=["Bgpfu.Thm.C08"],
+        ops=[("reply", [])],
+        level_text="Theorems over ALL documents of the reply grammar (any number/order/severity of rpc-error children, "
+                   "<ok/>, <data>, comments, <load-configuration-results> with its own children, arbitrary inert leaf "
+                   "content, any qualified names): the event-level reader loops (both parse phases, message-id cross-check, "
+                   "into_result) refine a child-level semantics (reply_refines), from which: success implies no rpc-error of "
+                   "severity error anywhere the grammar allows one, success implies the positive indication of the reply "
+                   "type, and reported errors are exactly the reply's rpc-errors in order. The reader model is tied to the "
+                   "real code by injecting generated reply documents as replies to real requests of all four reply kinds.",
+        level_note="Theorems are about Model/Readers.lean over quick-xml event lists; tokenisation (quick-xml), namespace "
+                   "resolution and read_text spans are observed by the harness and trusted. Documents outside the grammar "
+                   "(e.g. two root elements) are covered by the correspondence run only.",
+        rule="reply documents from the reply grammar: exhaustive child sequences up to length 4 (thorough 5) over "
+             "{ok, rpc-error(error), rpc-error(warning), data/count, comment} per reply kind, plus random documents with "
+             "junk elements, <ok></ok>, nested/duplicated results; a case is distinct by (kind, child token sequence)",
+        trusted=["quick-xml 0.31 tokenisation, namespace resolution, read_text span computation (harness annotates events)"],
+        assumptions=["GoodDoc: message-id parses, leaves hold parseable tokens (after trim), leaf contents contain no element "
+                     "with the leaf's own name and no tokenizer error"],
+    ),
 }
